@@ -389,6 +389,9 @@ class LowerArithCmpf(RewritePattern):
     @op_type_rewrite_pattern
     def match_and_rewrite(self, op: arith.CmpfOp, rewriter: PatternRewriter) -> None:
         # https://llvm.org/docs/LangRef.html#id309
+        # `feq.s`/`flt.s`/`fle.s` compare single-precision values only.
+        if not isinstance(op.lhs.type, Float32Type):
+            raise NotImplementedError("Cmpf is only supported for 32 bit floats")
         lhs, rhs = cast_operands_to_regs(rewriter, op)
         cast_op_results(rewriter, op)
 
